@@ -11,7 +11,7 @@ from ..poly import poly_of, NotPoly, Poly
 META = {
     'property': 'C17',
     'title': 'Rejection, mask interpolation and sky masking act on exactly the intended pixels',
-    'technique': 'call-site agreement over the 11 axis-dispatch sites, store-index discipline, order typestate '
+    'technique': 'call-site agreement over the axis-dispatch sites (every ndim / axis combination covered), store-index discipline, order typestate '
                  '(argsort/gather/scatter), index-space typing of the grow loop, mask-product dataflow, integer-signedness typing',
     'explanation': (
         'Decided: C17.MI-SITES - in djs_maskinterp every call of djs_maskinterp1 uses the same index tuple on the '
@@ -29,8 +29,8 @@ META = {
         'REDMONSTER on ormask, dilates each row with width 2*ngrow+1 using the edge-truncating smooth, multiplies invvar by the '
         'complement; C17.SKY-CAST - each & between the caller\'s mask and a uint64 flag value has an explicit conversion. '
         'C17.MEDIAN - djs_median does not pad with the non-repeating reflect mode of numpy.pad. C17.SMOOTH - smooth() uses the requested width made odd and returns its input unchanged only for widths below 3; C17.REJ-MASKS also: the model-less first pass hands back the input mask. NOT decided: the explicit reflection slices of djs_median, maxrej/group logic, numerical interpolation values.'),
-    'floors': {'C17.SMOOTH': 3, 'C17.MI-SITES': 11, 'C17.MI1-STORE': 6, 'C17.MI1-ORDER': 1, 'C17.GROW': 3, 'C17.REJ-MASKS': 10, 'C17.AESTH': 4,
-               'C17.SKY': 5, 'C17.SKY-CAST': 2, 'C17.MEDIAN': 1},
+    'floors': {'C17.SMOOTH': 3, 'C17.MI-SITES': 6, 'C17.MI1-STORE': 6, 'C17.MI1-ORDER': 1, 'C17.GROW': 3, 'C17.REJ-MASKS': 10, 'C17.AESTH': 4,
+               'C17.SKY': 5, 'C17.SKY-CAST': 1, 'C17.MEDIAN': 1},
 }
 
 IMAGE = 'pydl/pydlutils/image.py'
@@ -39,56 +39,122 @@ SPEC1D = 'pydl/pydlspec2d/spec1d.py'
 SPEC2D = 'pydl/pydlspec2d/spec2d.py'
 
 
-def idx_tuple(sub):
+def idx_tuple(sub, fa=None):
+    """The index of a subscript as a tuple of texts; a full slice reads ':' however it is spelled, an index held in a name is
+    followed to its definition."""
     sl = sub.slice
-    return tuple(src(x) for x in (sl.elts if isinstance(sl, ast.Tuple) else [sl]))
+    if isinstance(sl, ast.Name) and fa is not None:
+        v = fa.resolve(sl)
+        if v is not None:
+            sl = v
+    out = []
+    for x in (sl.elts if isinstance(sl, ast.Tuple) else [sl]):
+        if isinstance(x, ast.Call) and call_name(x) == 'slice' and len(x.args) == 1 and isinstance(x.args[0], ast.Constant) and x.args[0].value is None:
+            out.append(':')
+        elif isinstance(x, ast.Slice) and x.lower is None and x.upper is None and x.step is None:
+            out.append(':')
+        else:
+            out.append(src(x))
+    return tuple(out)
+
+
+def _is_none_test(t, name):
+    """+1 for `name is None`, -1 for `name is not None`, 0 otherwise."""
+    if isinstance(t, ast.Compare) and len(t.ops) == 1 and isinstance(t.left, ast.Name) and t.left.id == name \
+            and isinstance(t.comparators[0], ast.Constant) and t.comparators[0].value is None:
+        return 1 if isinstance(t.ops[0], (ast.Is, ast.Eq)) else -1 if isinstance(t.ops[0], (ast.IsNot, ast.NotEq)) else 0
+    return 0
 
 
 def check_mi_sites(ctx, repo):
     f = repo.func(IMAGE, 'djs_maskinterp')
+    g = repo.func(IMAGE, 'djs_maskinterp1')
+    fa = FA(f)
     ctx.cover(f)
+    P = f.params
+    ctx.need(len(P) >= 5 and len(g.params) >= 4, 'djs_maskinterp / djs_maskinterp1: parameter lists changed')
+    yv, mk, xv, ax, cn = P[:5]
     calls = [c for c in walk_local(f.node) if isinstance(c, ast.Call) and call_name(c) == 'djs_maskinterp1']
+    shapes = set()
     for c in calls:
         st = c
         while not isinstance(st, ast.stmt):
             st = st._parent
-        kw = {k.arg: k.value for k in c.keywords}
-        has_x = 'xval' in kw
-        under_not_none = None
+        bound = dict(zip(g.params, c.args))
+        bound.update({k.arg: k.value for k in c.keywords if k.arg})
+        a_y, a_m, a_x, a_c = (bound.get(g.params[i]) for i in range(4))
+        # is the site only reached with xval None / not None ?
+        under = 0
+        child = st
         for a in ancestors(c):
-            if isinstance(a, ast.If) and src(a.test) in ('xval is None', 'xval is not None'):
-                inbody = any(st is b or st in list(ast.walk(b)) for b in a.body)
-                under_not_none = (inbody and src(a.test) == 'xval is not None') or ((not inbody) and src(a.test) == 'xval is None')
+            if isinstance(a, ast.If) and _is_none_test(a.test, xv):
+                inbody = any(child is b_ or child in list(ast.walk(b_)) for b_ in a.body)
+                under = _is_none_test(a.test, xv) * (1 if inbody else -1)
                 break
+            child = a
         if isinstance(st, ast.Assign) and isinstance(st.targets[0], ast.Subscript):
-            tgt = idx_tuple(st.targets[0])
-            okidx = all(isinstance(a, ast.Subscript) and idx_tuple(a) == tgt for a in c.args[:2])
-            if has_x:
-                okidx = okidx and isinstance(kw['xval'], ast.Subscript) and idx_tuple(kw['xval']) == tgt
-            # loop ranges
-            okrng = True
-            for a in ancestors(c):
-                if isinstance(a, ast.For) and isinstance(a.target, ast.Name) and a.target.id in tgt:
-                    pos = tgt.index(a.target.id)
-                    okrng = okrng and src(a.iter) == 'range(yval.shape[%d])' % pos
-            okargs = len(c.args) == 2 and src(c.args[0].value) == 'yval' and src(c.args[1].value) == 'mask' if okidx else False
+            tgt = idx_tuple(st.targets[0], fa)
+            whole = False
         else:
-            # 1-D direct call: whole arrays
             tgt = ()
-            okidx = [src(a) for a in c.args[:2]] == ['yval', 'mask'] and (not has_x or src(kw['xval']) == 'xval')
-            okrng = okargs = True
-            under_not_none = has_x if under_not_none is None else under_not_none
-        okconst = 'const' in kw and src(kw['const']) == 'const'
-        okx = (under_not_none is None and True) or (has_x == bool(under_not_none))
+            whole = True
+
+        def arg_ok(a, name):
+            if whole:
+                return isinstance(a, ast.Name) and a.id == name
+            return isinstance(a, ast.Subscript) and isinstance(a.value, ast.Name) and a.value.id == name and idx_tuple(a, fa) == tgt
+        okidx = arg_ok(a_y, yv) and arg_ok(a_m, mk)
+        okargs = a_y is not None and a_m is not None and okidx
+
+        def x_forms(e, depth=0):
+            """{'none', 'sub', 'bad'}: how the xval argument can evaluate, with the xval-is-None condition it is selected under."""
+            if e is None:
+                return [('none', 0)]
+            if isinstance(e, ast.Constant) and e.value is None:
+                return [('none', 0)]
+            if arg_ok(e, xv):
+                return [('sub', 0)]
+            if isinstance(e, ast.IfExp) and _is_none_test(e.test, xv):
+                s_ = _is_none_test(e.test, xv)
+                return [(k_, s_) for k_, _ in x_forms(e.body, depth + 1)] + [(k_, -s_) for k_, _ in x_forms(e.orelse, depth + 1)]
+            if isinstance(e, ast.Name) and depth < 3:
+                out = []
+                for d, v in fa.defs(e):
+                    if v is None:
+                        return [('bad', 0)]
+                    cond = 0
+                    ch = d
+                    for a in ancestors(d):
+                        if isinstance(a, ast.If) and _is_none_test(a.test, xv):
+                            inb = any(ch is b_ or ch in list(ast.walk(b_)) for b_ in a.body)
+                            cond = _is_none_test(a.test, xv) * (1 if inb else -1)
+                            break
+                        ch = a
+                    out += [(k_, cond or c_) for k_, c_ in x_forms(v, depth + 1)]
+                return out or [('bad', 0)]
+            return [('bad', 0)]
+        forms = x_forms(a_x)
+        # xval must be handed on exactly when there is one: 'none' only where xval is None, the slice of xval only where it is not
+        okx = all((k_ == 'none' and (c_ or under) == 1) or (k_ == 'sub' and (c_ or under) == -1) for k_, c_ in forms)
+        if whole and under == 0 and forms == [('sub', 0)]:
+            okx = True                  # 1-D: xval handed on as it is, None included
+        okrng = True
+        for a in ancestors(c):
+            if isinstance(a, ast.For) and isinstance(a.target, ast.Name) and a.target.id in tgt:
+                pos = tgt.index(a.target.id)
+                okrng = okrng and src(a.iter).replace(' ', '') in ('range(%s.shape[%d])' % (yv, pos), 'range(%s.shape[%d])' % (mk, pos))
+        okconst = isinstance(a_c, ast.Name) and a_c.id == cn
+        has_x = any(k_ == 'sub' for k_, _ in forms)
         ctx.check('C17.MI-SITES', okidx and okrng and okargs and okconst and okx, f, c,
                   'site %s: target/yval/mask%s share the index tuple, loop ranges match axis positions, const passed, xval %s'
                   % (tgt or '1-D', '/xval' if has_x else '', 'passed' if has_x else 'absent'),
                   msg='djs_maskinterp call site at line %d is inconsistent: %s' % (c.lineno, '; '.join(
-                      w for w, ok in (('index tuples differ between target, yval, mask, xval', okidx), ('a loop ranges over the wrong axis length', okrng),
+                      w for w, ok in (('index tuples differ between target, yval, mask', okidx), ('a loop ranges over the wrong axis length', okrng),
                                       ('arguments are not yval/mask slices', okargs), ('const=const not passed', okconst),
-                                      ('xval passed/omitted in the wrong branch', okx)) if not ok)),
+                                      ('xval is not handed on as the same slice exactly when it is given', okx)) if not ok)),
                   construct='maskinterp site ' + src(st)[:90])
-    return len(calls)
+        shapes.add((len(tgt), tgt.index(':')) if ':' in tgt else (1, 0))
+    return shapes
 
 
 def check_mi1(ctx, repo):
@@ -382,31 +448,82 @@ def check_aesthetics(ctx, repo):
     ctx.check('C17.AESTH', okn, f, nothing[0] if nothing else f.node, "method 'nothing' returns a copy of the flux", msg="method 'nothing' changed", construct='nothing method')
 
 
+def _bitop(n):
+    """('&' | '|', a, b) for the operator or the numpy function spelling."""
+    if isinstance(n, ast.BinOp) and isinstance(n.op, (ast.BitAnd, ast.BitOr)):
+        return ('&' if isinstance(n.op, ast.BitAnd) else '|'), n.left, n.right
+    if isinstance(n, ast.Call) and call_name(n) in ('bitwise_and', 'bitwise_or', 'logical_or') and len(n.args) == 2:
+        return ('&' if call_name(n) == 'bitwise_and' else '|'), n.args[0], n.args[1]
+    return None
+
+
 def check_skymask(ctx, repo):
     f = repo.func(SPEC1D, 'skymask')
     fa = FA(f)
     ctx.cover(f)
-    flags = {}
-    for st in walk_local(f.node):
-        if isinstance(st, ast.Assign) and isinstance(st.value, ast.Call) and call_name(st.value) == 'sdss_flagval' and isinstance(st.targets[0], ast.Name):
-            flags[st.targets[0].id] = tuple(try_fold(a) for a in st.value.args)
-    ands = [n for n in walk_local(f.node) if isinstance(n, ast.BinOp) and isinstance(n.op, ast.BitAnd)]
+    P = f.params
+    ctx.need(len(P) >= 4, 'skymask: parameter list changed')
+    invvar, andmask, mask_param, ngrow = P[:4]
+
+    def flagset(e, depth=0):
+        """The set of (table, bit) names whose bits e holds; None when e is not a combination of sdss_flagval values."""
+        if depth > 6:
+            return None
+        if isinstance(e, ast.Name):
+            vs = [v for d, v in fa.defs(e)]
+            if len(vs) != 1 or vs[0] is None:
+                return None
+            return flagset(vs[0], depth + 1)
+        if isinstance(e, ast.Call) and call_name(e) == 'sdss_flagval' and len(e.args) == 2:
+            t, b_ = try_fold(e.args[0]), try_fold(e.args[1])
+            if isinstance(t, str) and isinstance(b_, str):
+                return {(t.upper(), b_.upper())}
+            if isinstance(t, str) and isinstance(b_, (list, tuple)) and all(isinstance(x, str) for x in b_):
+                return {(t.upper(), x.upper()) for x in b_}
+            return None
+        if isinstance(e, ast.Call) and call_name(e) in ('uint64', 'int64', 'astype', 'asarray', 'array') and (e.args or isinstance(e.func, ast.Attribute)):
+            inner = e.func.value if call_name(e) == 'astype' else (e.args[0] if e.args else None)
+            return flagset(inner, depth + 1) if inner is not None else None
+        bo = _bitop(e)
+        if bo is not None and bo[0] == '|':
+            l, r = flagset(bo[1], depth + 1), flagset(bo[2], depth + 1)
+            return (l | r) if l is not None and r is not None else None
+        if isinstance(e, ast.BinOp) and isinstance(e.op, ast.Add):
+            l, r = flagset(e.left, depth + 1), flagset(e.right, depth + 1)
+            return (l | r) if l is not None and r is not None and not (l & r) else None
+        return None
+    rets = [r for r in walk_local(f.node) if isinstance(r, ast.Return) and r.value is not None]
+    bad = None
+    okret = False
+    if len(rets) == 1 and isinstance(rets[0].value, ast.BinOp) and isinstance(rets[0].value.op, ast.Mult):
+        for u, w in ((rets[0].value.left, rets[0].value.right), (rets[0].value.right, rets[0].value.left)):
+            if isinstance(u, ast.Name) and u.id == invvar and isinstance(w, ast.BinOp) and isinstance(w.op, ast.Sub) and try_fold(w.left) == 1 \
+                    and isinstance(w.right, ast.Name):
+                bad = w.right.id
+                okret = True
+    ctx.check('C17.SKY', okret, f, rets[0] if rets else f.node,
+              'result is invvar * (1 - badmask)', msg='skymask returns %s' % (src(rets[0].value) if rets else ''), construct='skymask return')
+    if not okret:
+        return
     tested = set()
-    mask_param = f.params[2]
-    for n in ands:
-        sides = [n.left, n.right]
-        flag = [s for s in sides if isinstance(s, ast.Name) and s.id in flags]
-        other = [s for s in sides if s not in flag]
+    tests = []
+    for n in walk_local(f.node):
+        bo = _bitop(n)
+        if bo is None or bo[0] != '&':
+            continue
+        fl = [(x, flagset(x)) for x in bo[1:]]
+        flag = [(x, s_) for x, s_ in fl if s_ is not None]
+        other = [x for x, s_ in fl if s_ is None]
         if not flag or not other:
             continue
-        tested.add(flags[flag[0].id])
-        o = other[0]
-        od = fa.deep(o)
+        tested |= flag[0][1]
+        tests.append(n)
+        od = fa.deep(other[0])
         from_mask = mask_param in src(od)
         conv = isinstance(od, ast.Call) and (call_name(od) in ('astype', 'uint64', 'asarray') and ('uint64' in src(od) or 'u8' in src(od)))
         conv_flag = False
-        fd = fa.deep(flag[0])
-        if isinstance(fd, ast.Call) and call_name(fd) != 'sdss_flagval':
+        fd = fa.deep(flag[0][0])
+        if isinstance(fd, ast.Call) and call_name(fd) not in ('sdss_flagval', 'bitwise_or') and _bitop(fd) is None:
             conv_flag = True
         ctx.check('C17.SKY-CAST', from_mask and (conv or conv_flag), f, n,
                   '`%s`: the mask operand is explicitly converted (%s)' % (src(n), src(od)[:40]),
@@ -414,24 +531,72 @@ def check_skymask(ctx, repo):
                       'TypeError for the signed int16/int32/int64 masks stored in spPlate files' % src(n), construct='mask & flag: ' + src(n))
     ctx.check('C17.SKY', tested == {('SPPIXMASK', 'BADSKYCHI'), ('SPPIXMASK', 'REDMONSTER')}, f, f.node,
               'exactly BADSKYCHI and REDMONSTER are tested on the or-mask', msg='skymask tests %s' % sorted(tested), construct='flags tested')
-    ors = [st for st in walk_local(f.node) if isinstance(st, ast.Assign) and src(st.targets[0]) == 'badmask' and isinstance(st.value, ast.BinOp) and isinstance(st.value.op, ast.BitOr)]
-    ctx.check('C17.SKY', len(ors) == 2 and all('!= 0' in src(s.value) for s in ors), f, ors[0] if ors else f.node, 'both tests are ORed into badmask',
-              msg='the two flag tests are not both ORed into badmask', construct='badmask ORs')
-    gif = [n for n in walk_local(f.node) if isinstance(n, ast.If) and src(n.test) == 'ngrow > 0']
+
+    # every flag test is turned into a truth value and ORed into the bad-pixel mask
+    def truth_and_or(n):
+        """Follow the flag test upwards / through single-use names: (made a truth value, ORed into `bad`)."""
+        truth = False
+        cur = n
+        for _ in range(12):
+            p_ = cur._parent
+            if isinstance(p_, ast.Compare) and len(p_.ops) == 1 and ((isinstance(p_.ops[0], (ast.NotEq, ast.Gt)) and try_fold(p_.comparators[0]) == 0
+                                                                       and p_.left is cur)):
+                truth = True
+            elif isinstance(p_, ast.Call) and call_name(p_) == 'not_equal' and len(p_.args) == 2 and try_fold(p_.args[1]) == 0 and p_.args[0] is cur:
+                truth = True
+            elif isinstance(p_, ast.Call) and call_name(p_) == 'astype' and p_.func.value is cur and p_.args and src(p_.args[0]) in ('bool', 'np.bool_', "'bool'"):
+                truth = True
+            elif isinstance(p_, ast.Assign) and len(p_.targets) == 1 and isinstance(p_.targets[0], ast.Name):
+                t = p_.targets[0].id
+                if t == bad:
+                    bo = _bitop(p_.value)
+                    ored = bo is not None and bo[0] == '|' and any(isinstance(x, ast.Name) and x.id == bad for x in bo[1:])
+                    return truth, ored
+                uses = [x for x in walk_local(f.node) if isinstance(x, ast.Name) and x.id == t and isinstance(x.ctx, ast.Load)]
+                if len(uses) != 1:
+                    return truth, False
+                cur = uses[0]
+                continue
+            elif isinstance(p_, ast.AugAssign) and isinstance(p_.target, ast.Name) and p_.target.id == bad and isinstance(p_.op, ast.BitOr):
+                return truth, True
+            elif isinstance(p_, ast.stmt):
+                return truth, False
+            cur = p_
+        return truth, False
+    res = [truth_and_or(n) for n in tests]
+    ctx.check('C17.SKY', bool(tests) and all(t and o for t, o in res), f, tests[0] if tests else f.node, 'every flag test is made a truth value (!= 0) and ORed into badmask',
+              msg='the flag tests are not all turned into truth values and ORed into badmask', construct='badmask ORs')
+    gif = [n for n in walk_local(f.node) if isinstance(n, ast.If) and any(isinstance(x, ast.Name) and x.id == ngrow for x in ast.walk(n.test))]
     ctx.need(gif, 'skymask: ngrow block not found')
     sm = [c for c in walk_local(gif[0]) if isinstance(c, ast.Call) and call_name(c) == 'smooth']
     okw = False
     okrow = False
     if sm:
         c = sm[0]
-        w = fa.deep(c.args[1]) if len(c.args) > 1 else None
-        okw = w is not None and src(w).replace(' ', '') == '2*ngrow+1' and len(c.args) > 2 and try_fold(c.args[2]) is True
+        g = repo.func('pydl/smooth.py', 'smooth')
+        bound = dict(zip(g.params, c.args))
+        bound.update({k.arg: k.value for k in c.keywords if k.arg})
+        w = fa.deep(bound[g.params[1]]) if g.params[1] in bound else None
+        et = bound.get(g.params[2]) if len(g.params) > 2 else None
+        wtxt = src(w).replace(' ', '') if w is not None else ''
+        okw = wtxt in ('2*%s+1' % ngrow, '%s*2+1' % ngrow, '1+2*%s' % ngrow, '1+%s*2' % ngrow) and et is not None and try_fold(et) is True
         st = c
         while not isinstance(st, ast.stmt):
             st = st._parent
         loop = next((a for a in ancestors(st) if isinstance(a, ast.For)), None)
-        okrow = loop is not None and isinstance(st, ast.Assign) and isinstance(st.targets[0], ast.Subscript) and \
-            idx_tuple(st.targets[0]) == (loop.target.id, ':') and src(c.args[0]).startswith('badmask[%s, :]' % loop.target.id) and '> 0' in src(st.value)
+        sig = bound.get(g.params[0])
+        row = None
+        if loop is not None and isinstance(loop.target, ast.Name) and isinstance(st, ast.Assign) and isinstance(st.targets[0], ast.Subscript):
+            row = idx_tuple(st.targets[0], fa)
+        rows_ok = row in ((loop.target.id, ':'), (loop.target.id,)) if row else False
+        sig_ok = False
+        if rows_ok and sig is not None:
+            subs = [x for x in ast.walk(sig) if isinstance(x, ast.Subscript) and isinstance(x.value, ast.Name) and x.value.id == bad]
+            sig_ok = len(subs) == 1 and idx_tuple(subs[0], fa) in ((loop.target.id, ':'), (loop.target.id,))
+        full = loop is not None and isinstance(loop.iter, ast.Call) and call_name(loop.iter) == 'range' and len(loop.iter.args) == 1
+        gt0 = isinstance(st, ast.Assign) and isinstance(st.value, ast.Compare) and len(st.value.ops) == 1 \
+            and isinstance(st.value.ops[0], (ast.Gt, ast.NotEq)) and try_fold(st.value.comparators[0]) == 0
+        okrow = rows_ok and sig_ok and full and gt0
     if not sm:
         other = [c for c in walk_local(gif[0]) if isinstance(c, ast.Call) and call_name(c) in ('binary_dilation', 'grey_dilation', 'maximum_filter',
                                                                                               'maximum_filter1d', 'convolve', 'convolve1d', 'uniform_filter1d')]
@@ -442,9 +607,6 @@ def check_skymask(ctx, repo):
     ctx.check('C17.SKY', okrow, f, sm[0] if sm else gif[0], 'dilation is applied row by row (each spectrum separately)',
               msg='the bad-pixel mask is not dilated row by row along the pixel axis: flags would spread into neighbouring spectra',
               construct='dilation rows')
-    rets = [r for r in walk_local(f.node) if isinstance(r, ast.Return) and r.value is not None]
-    ctx.check('C17.SKY', len(rets) == 1 and src(rets[0].value).replace(' ', '') in ('invvar*(1-badmask)', '(1-badmask)*invvar'), f, rets[0] if rets else f.node,
-              'result is invvar * (1 - badmask)', msg='skymask returns %s' % (src(rets[0].value) if rets else ''), construct='skymask return')
 
 
 def check_median(ctx, repo):
@@ -493,8 +655,9 @@ def run(ctx):
     repo = ctx.repo
     check_smooth_width(ctx, repo)
     check_median(ctx, repo)
-    n = check_mi_sites(ctx, repo)
-    ctx.need(n >= 11, 'djs_maskinterp: fewer than 11 dispatch sites')
+    shapes = check_mi_sites(ctx, repo)
+    missing = {(1, 0), (2, 0), (2, 1), (3, 0), (3, 1), (3, 2)} - shapes
+    ctx.need(not missing, 'djs_maskinterp: no dispatch site found for (ndim, position of the interpolated axis) %s' % sorted(missing))
     check_mi1(ctx, repo)
     check_reject(ctx, repo)
     check_aesthetics(ctx, repo)
